@@ -245,7 +245,25 @@ let params_of_tokens (kv : (string * string) list) : H.params =
   | H.OOk s -> s.H.pars
   | _ -> failwith "params"
 
+let run_pure file =
+  let ic = open_in file in
+  let show = function H.Ok z -> zs z | H.Err -> "err" | H.Panic -> "panic" in
+  (try
+    while true do
+      let line = String.trim (input_line ic) in
+      let t = Array.of_list (String.split_on_char ' ' line) in
+      let r = match t.(0) with
+        | "afb" -> show (H.amount_for_bytes (hz t.(1)) (hz t.(2)))
+        | "prop" -> show (H.proportion (hz t.(1)) (hz t.(2)))
+        | "ceil" -> show (H.ceil_to1 (hz t.(1)) (hz t.(2)))
+        | k -> failwith ("pure kind " ^ k) in
+      Printf.printf "%s %s %s = %s\n" t.(0) t.(1) t.(2) r
+    done
+  with End_of_file -> ());
+  close_in ic
+
 let () =
+  if Array.length Sys.argv > 2 && Sys.argv.(1) = "--pure" then (run_pure Sys.argv.(2); exit 0);
   let ops_file = Sys.argv.(1) in
   let ic = open_in ops_file in
   let out = stdout in
